@@ -415,15 +415,82 @@ pub fn meta(args: &Args) -> Value {
 
 const TRANSFORMS: [&str; 6] = ["rename-fresh", "rename-compiler-like", "rename-case", "annotate", "parens", "layout"];
 
+/// Hand-built pairs for transformation classes the G-AST transformations cannot express:
+/// (A) a local binder renamed to the name of a function that is visible where its initialiser
+///     is evaluated (top-level, `use m::*`, `use m::f`, qualified) — `let` is not recursive, so
+///     the initialiser still denotes the function; binder forms: let, tuple-let, lambda
+///     parameter, function parameter, nested block;
+/// (B) agreeing record annotations written in a field order that is not the canonical one, and
+///     consistent renamings of record fields that change their alphabetical order, around field
+///     reads, field assignments, record updates, parameters and results.
+pub fn extra_pairs() -> Vec<MCase> {
+    let mut v = vec![];
+    let mut push = |tag: &str, a: String, b: String| {
+        v.push(MCase { original: a, transformed: b, transformation: tag.to_string(), n: 3, input_seed: 1, path: None, scheduler: false });
+    };
+    // ---- (A)
+    let imports: [(&str, &str, &str); 4] = [
+        ("toplevel", "fn gain(x){ x * 0.5 }\nfn offset(x){ x + 100.0 }\n", ""),
+        ("use-wildcard", "mod m {\n  pub fn gain(x){ x * 0.5 }\n  pub fn offset(x){ x + 100.0 }\n}\nuse m::*\n", ""),
+        ("use-single", "mod m {\n  pub fn gain(x){ x * 0.5 }\n  pub fn offset(x){ x + 100.0 }\n}\nuse m::gain\nuse m::offset\n", ""),
+        ("use-multi", "mod m {\n  pub fn gain(x){ x * 0.5 }\n  pub fn offset(x){ x + 100.0 }\n}\nuse m::{gain, offset}\n", ""),
+    ];
+    // (binder tag, body with placeholders G and O for the two local names)
+    let binders: [(&str, &str); 6] = [
+        ("let", "fn dsp(){\n  let G = gain(4.0)\n  let O = offset(G)\n  O\n}\n"),
+        ("tuple-let", "fn dsp(){\n  let (G, O) = (gain(4.0), offset(1.0))\n  G + O\n}\n"),
+        ("lambda-parameter", "fn dsp(){\n  (|G, O| G * 2.0 + O)(gain(4.0), offset(1.0))\n}\n"),
+        ("fn-parameter", "fn h(G, O){\n  G * 2.0 + O\n}\nfn dsp(){\n  h(gain(4.0), offset(1.0))\n}\n"),
+        ("let-in-block", "fn dsp(){\n  let y = {\n    let G = gain(4.0)\n    G + 1.0\n  }\n  let O = offset(y)\n  O\n}\n"),
+        ("let-then-lambda", "fn dsp(){\n  let G = gain(4.0)\n  let O = (|q| q + G)(offset(2.0))\n  O\n}\n"),
+    ];
+    for (itag, prelude, _) in imports {
+        for (btag, body) in binders {
+            let a = format!("{prelude}{}", body.replace('G', "g_loc").replace('O', "o_loc"));
+            let b = format!("{prelude}{}", body.replace('G', "gain").replace('O', "offset"));
+            push(&format!("rename-local-to-visible-function/{itag}/{btag}"), a, b);
+        }
+    }
+    // ---- (B)
+    let ops: [(&str, &str); 6] = [
+        ("field-read", "  r.F1 + r.F2 * 10.0 + r.F3 * 100.0\n"),
+        ("field-assign", "  r.F2 = 50.0\n  r.F1 + r.F2 * 10.0 + r.F3 * 100.0\n"),
+        ("record-update", "  let s = {r <- F3 = 700.0}\n  r.F1 + r.F2 * 10.0 + r.F3 * 100.0 + s.F1 * 1000.0 + s.F2 * 10000.0 + s.F3 * 100000.0\n"),
+        ("assign-then-update", "  r.F2 = 50.0\n  let s = {r <- F3 = 700.0}\n  r.F1 + r.F2 * 10.0 + r.F3 * 100.0 + s.F1 * 1000.0 + s.F2 * 10000.0 + s.F3 * 100000.0\n"),
+        ("pass-to-function", "  k(r) + r.F1\n"),
+        ("destructure", "  let {F1 = a1, F2 = a2, F3 = a3} = r\n  a1 + a2 * 10.0 + a3 * 100.0\n"),
+    ];
+    // field names in written order; the canonical (alphabetical) order differs from it in `mixed`
+    let sorted = ["p_freq", "q_gain", "r_bias"];
+    let mixed = ["freq", "gain", "bias"];
+    for (otag, op) in ops {
+        let mk = |names: [&str; 3], annot: bool| {
+            let ty = format!("{{{}: float, {}: float, {}: float}}", names[0], names[1], names[2]);
+            let lit = format!("{{{} = 1.0, {} = 2.0, {} = 3.0}}", names[0], names[1], names[2]);
+            let k = format!("fn k(x{}){{\n  x.{} * 3.0 + x.{}\n}}\n", if annot { format!(":{ty}") } else { String::new() }, names[1], names[2]);
+            let body = op.replace("F1", names[0]).replace("F2", names[1]).replace("F3", names[2]);
+            format!("{k}fn dsp(){{\n  let r{} = {lit}\n{body}}}\n", if annot { format!(":{ty}") } else { String::new() })
+        };
+        push(&format!("agreeing-annotation-in-written-field-order/{otag}"), mk(mixed, false), mk(mixed, true));
+        push(&format!("rename-fields-changing-canonical-order/{otag}"), mk(sorted, false), mk(mixed, false));
+        push(&format!("rename-fields-changing-canonical-order-annotated/{otag}"), mk(sorted, true), mk(mixed, true));
+    }
+    v
+}
+
 pub fn run(args: &Args, out: &mut Out) {
     let files = corpus_files(&args.repo);
     let ncorpus = files.len();
     let ngen = args.cases(400, 15000);
+    let extra = extra_pairs();
     drive(
         args,
         out,
-        ncorpus + ngen,
+        ncorpus + ngen + extra.len(),
         |idx, rng| {
+            if idx >= ncorpus + ngen {
+                return Some(extra[idx - (ncorpus + ngen)].clone());
+            }
             if idx < ncorpus {
                 // quick: a third of the shipped sources, rotating with the seed
                 if !args.thorough() && idx % 3 != (args.seed % 3) as usize {
